@@ -3,7 +3,7 @@
    observation (spec_ok).
    result code: 0 agree /\ spec_ok, 1 ~agree /\ spec_ok, 2 ~agree /\ ~spec_ok,
                 3 agree /\ ~spec_ok (model mirrors a defect) *)
-From Verif Require Export Lib.Bytes C16.Model.
+From Verif Require Export Lib.Bytes C16.Model C16.Reads.
 From Verif Require Import C16.Spec.
 Open Scope N_scope.
 
@@ -79,6 +79,10 @@ Inductive case :=
 | CShow (bc : list (N * str)) (users : list user) (dbs : list str) (secret_set : bool) (cr : creds) (ss : list stmt) (db : str)
         (status : N) (visible : list str)
 | CSeq (bc : list (N * str)) (secret_set : bool) (steps : list (step * sobs))
+| CDbRead (bc : list (N * str)) (users : list user) (dbs : list str) (secret_set : bool) (cr : creds) (s : showstmt)
+          (privs : option (list rpriv)) (db : str) (status : N) (reads : list str)
+    (* one SHOW-family statement through handler + real executor over a real store holding [dbs];
+       privs = the list the real authoriser checks for it; reads = databases touched / named in the answer *)
 | CRace (bc : list (N * str)) (u1 u2 : list user) (name pw_old pw_new : str) (r_first r_old r_new : N).
 
 Definition ares_user (a : ares) : option user := match a with AOk ui => Some ui | _ => None end.
@@ -192,6 +196,15 @@ Definition race_outcome (chk : bool) (bc : list (N * str)) (u1 u2 : list user) (
 Definition triple_eqb (a b : N * N * N) : bool :=
   (fst (fst a) =? fst (fst b)) && (snd (fst a) =? snd (fst b)) && (snd a =? snd b).
 
+Definition rpriv_eqb (a b : rpriv) : bool :=
+  Bool.eqb (rp_admin a) (rp_admin b) && str_eqb (rp_name a) (rp_name b) && (rp_priv a =? rp_priv b).
+
+Definition privs_seen_eqb (a : option (list rpriv)) (b : list rpriv) : bool :=
+  match a with Some l => list_eqb rpriv_eqb l b | None => false end.
+
+Definition strs_sub (a b : list str) : bool := forallb (fun x => mem_str x b) a.
+Definition strs_seteq (a b : list str) : bool := strs_sub a b && strs_sub b a.
+
 Definition check_case (c : case) : N :=
   match c with
   | CAuthz users u ss db res =>
@@ -214,6 +227,11 @@ Definition check_case (c : case) : N :=
   | CSeq bc secret_set tos =>
       let m := seq_run (bc_ok bc) salted_id true secret_set salt0 seq0 (map fst tos) in
       code (list_eqb sobs_eqb m (map snd tos)) (seq_spec bc secret_set [] tos)
+  | CDbRead bc users dbs secret_set cr s privs db status reads =>
+      let c0 := swap (client0) (mkM users dbs) in
+      let m := fst (handle_dbread (bc_ok bc) salted_id true true secret_set c0 salt0 cr s db) in
+      code ((fst m =? status) && strs_seteq (snd m) reads && privs_seen_eqb privs (show_privs true s))
+           (dbread_obs_ok (bc_ok bc) users secret_set cr reads)
   | CRace bc u1 u2 name pw_old pw_new r0 r_old r_new =>
       let outs := map (race_outcome true bc u1 u2 name pw_old pw_new) [0%nat; 1%nat; 2%nat; 3%nat] in
       code (existsb (triple_eqb (r0, r_old, r_new)) outs)
